@@ -101,7 +101,8 @@ LEVEL_TEXT = ("Kernel-checked theorems over ALL overload lists, argument tuples 
               "no-match / shared minimum = ambiguous, soundness of matching (one binding map satisfies every parameter "
               "position, substitution agrees with the supplied type up to REF transparency), output = substitution of "
               "the winner's bindings, and the ground-instance half of 'more specific ranks lower'. The unrestricted "
-              "rank-respects-instantiation statement is REFUTED for the code's rank (kept visible).")
+              "rank-respects-instantiation statement is REFUTED for the code's rank (kept visible)."
+              ' Every implementation answer is additionally checked against the documented specificity order (docrank oracle) and bundle families (named / un-named TSB patterns with extra, missing and reordered fields) and output patterns whose size variable no parameter binds (the candidate must be rejected) are part of the generator.')
 LEVEL_NOTE = ("Trusted: Lean kernel; axioms propext/Classical.choice/Quot.sound; the hand-written model of "
               "type_pattern.cpp / operator_dispatch.{h,cpp}; the correspondence harness (hgv_dispatch registers the "
               "families in the real OperatorRegistry and calls the real resolve). requires_ predicates, kwargs packs, "
@@ -813,6 +814,11 @@ def gen_out(rng, params):
         return ("TS", ("sconc", rng.choice(SCALARS)))
     q = rng.random()
     if q < 0.5: return leaf()
+    if q < 0.58:
+        # a size variable NO parameter binds (a different pool name, or one the parameters do not mention): the output
+        # cannot be resolved, the candidate must be rejected - never resolved with a defaulted size
+        free = [n for n in SZV + ["K"] if n not in szv]
+        return ("TSL", leaf(), ("szvar", rng.choice(free), ()))
     if q < 0.65: return ("TSL", leaf(), ("szvar", rng.choice(szv), ()) if szv else ("fixed", rng.choice([0, 2])))
     if q < 0.75: return ("TSD", ("svar", rng.choice(scv), ()) if scv else ("sconc", "int"), leaf())
     if q < 0.85: return ("REF", leaf())
